@@ -290,6 +290,12 @@ func (w *c05World) runConn(cn c05Conn) {
 			cfg = baseCfg(security.SecurityNever, security.SecurityOptional, nil, []security.CryptoMethod{security.CryptoAES}, false)
 		case "plain":
 			cfg = baseCfg(security.SecurityNever, security.SecurityNever, nil, nil, false)
+		case "lurker":
+			// lists a method the server also lists but holds no token: whenever
+			// authentication is optional nothing runs (a method is merely pre-selected),
+			// whenever it is required the handshake fails - never authenticated
+			cfg = baseCfg(security.SecurityOptional, security.SecurityOptional, []security.AuthMethod{mTOK}, []security.CryptoMethod{security.CryptoAES}, false)
+			cfg.Token = ""
 		}
 		if w.caches[cn.kind] == nil {
 			w.caches[cn.kind] = security.NewSessionCache()
@@ -504,7 +510,7 @@ func (e c05Event) String() string {
 
 func c05Alphabet(tier string) []c05Event {
 	var ev []c05Event
-	kinds := []string{"alice", "bob", "anon", "plain", "keyskip"}
+	kinds := []string{"alice", "bob", "anon", "plain", "lurker", "keyskip"}
 	for _, k := range kinds {
 		for _, c := range c05Cmds {
 			ev = append(ev, c05Event{kind: "open", who: k, cmd: c})
@@ -513,9 +519,9 @@ func c05Alphabet(tier string) []c05Event {
 	for _, c := range c05Cmds {
 		ev = append(ev, c05Event{kind: "follow", cmd: c})
 	}
-	rk := []string{"alice", "anon", "plain"}
+	rk := []string{"alice", "anon", "plain", "lurker"}
 	if tier == "thorough" {
-		rk = []string{"alice", "bob", "anon", "plain"}
+		rk = []string{"alice", "bob", "anon", "plain", "lurker"}
 	}
 	for _, k := range rk {
 		for _, c := range []int{cmdA, cmdB, cmdC} {
@@ -577,30 +583,37 @@ func c05Run(hist []c05Event, layout string) *vlib.Result {
 func C05Plan() *vlib.Plan {
 	p := &vlib.Plan{
 		Property: "C05", Level: "model_checking", Procs: 16,
-		Rule:   "Bounded history enumeration on a real server.Server with commands A (auth/enc OPTIONAL, READ), B (auth REQUIRED, WRITE), C (auth+enc REQUIRED, DAEMON), D (raw), E (unregistered), per-command policies and a switchable authorizer table, in two layouts (permissive default + a per-command answer for every command; strictest default + a per-command hook that returns nil for C so that C's policy arrives through the fallback - run for every history that mentions C). Events: open a connection as {alice, bob (TOKEN), unauthenticated, plaintext, scripted key-skipping CLAIMTOBE client} with first command x; follow-on command x on the kept-alive connection; reconnect and explicitly resume the client's last session with command x; switch the authorizer table; raw send of x. All histories <= depth (follow requires an open connection, resume requires a prior session). A monitor inside every handler records each dispatch; oracle: registered + right path (raw vs authenticated), authentication really ran on the wire for that session when the command requires it, stream really encrypted and canaries invisible when it requires encryption, identity currently authorized when a table is set; refused/unknown commands close the connection and nothing further runs. Non-trivial = history with >= 1 dispatch decision.",
+		Rule:   "Bounded history enumeration on a real server.Server with commands A (auth/enc OPTIONAL, READ), B (auth REQUIRED, WRITE), C (auth+enc REQUIRED, DAEMON), D (raw), E (unregistered), per-command policies and a switchable authorizer table, in two layouts (permissive default + a per-command answer for every command; strictest default + a per-command hook that returns nil for C so that C's policy arrives through the fallback - run for every history that mentions C). Events: open a connection as {alice, bob (TOKEN), unauthenticated, plaintext, 'lurker' (lists TOKEN but holds no token: a method is pre-selected yet nothing ever runs), scripted key-skipping CLAIMTOBE client} with first command x; follow-on command x on the kept-alive connection; reconnect and explicitly resume the client's last session with command x; switch the authorizer table; raw send of x. All histories <= 3 events (quick: reduced alphabet; thorough: full alphabet) plus, in thorough, all histories of 4 events over a core alphabet (follow requires an open connection, resume requires a prior session). A monitor inside every handler records each dispatch; oracle: registered + right path (raw vs authenticated), authentication really ran on the wire for that session when the command requires it, stream really encrypted and canaries invisible when it requires encryption, identity currently authorized when a table is set; refused/unknown commands close the connection and nothing further runs. Non-trivial = history with >= 1 dispatch decision.",
 		Assume: []string{"16 worker processes, each with its own process-global server cache", "ground truth for 'authenticated' = an authentication exchange was seen on the wire when the session was created"},
 	}
 	p.Gen = func(tier string, yield func(vlib.Case)) {
-		D := 3
-		if tier == "thorough" {
-			D = 4
-		}
-		ab := c05Alphabet(tier)
-		if tier != "thorough" {
-			// quick: a reduced alphabet at full depth 3
-			var r []c05Event
-			for _, e := range ab {
-				if e.kind == "open" && (e.who == "bob" && e.cmd != cmdA || e.cmd == cmdE && e.who != "alice") {
-					continue
-				}
-				r = append(r, e)
+		// quick: a reduced alphabet at depth 3. thorough: the full alphabet at depth 3
+		// plus a core alphabet at depth 4 (no raw sends - they do not depend on session
+		// state - and the raw / unregistered command only opened by alice).
+		full := c05Alphabet(tier)
+		var reduced, core []c05Event
+		for _, e := range full {
+			if e.kind == "open" && (e.who == "bob" && e.cmd != cmdA || e.cmd == cmdE && e.who != "alice") {
+				continue
 			}
-			ab = r
+			reduced = append(reduced, e)
+			if e.kind == "raw" || e.kind == "open" && (e.cmd == cmdD || e.cmd == cmdE) && e.who != "alice" || e.kind == "follow" && e.cmd == cmdE {
+				continue
+			}
+			core = append(core, e)
+		}
+		D, ab := 3, reduced
+		minLen := 1
+		if tier == "thorough" {
+			ab = full
 		}
 		p.Bounds = map[string]any{"history_depth": D, "alphabet": len(ab)}
+		if tier == "thorough" {
+			p.Bounds = map[string]any{"history_depth_full_alphabet": 3, "full_alphabet": len(full), "history_depth_core_alphabet": 4, "core_alphabet": len(core)}
+		}
 		var rec func(h []c05Event, open bool, sessions map[string]bool)
 		rec = func(h []c05Event, open bool, sessions map[string]bool) {
-			if len(h) > 0 {
+			if len(h) >= minLen {
 				hh := append([]c05Event(nil), h...)
 				names := make([]string, len(hh))
 				for i, e := range hh {
@@ -649,6 +662,11 @@ func C05Plan() *vlib.Plan {
 			}
 		}
 		rec(nil, false, map[string]bool{})
+		if tier == "thorough" {
+			// depth-4 histories over the core alphabet (shorter ones are covered above)
+			D, ab, minLen = 4, core, 4
+			rec(nil, false, map[string]bool{})
+		}
 	}
 	return p
 }
